@@ -39,6 +39,11 @@ def build_universe(rnd, n=60):
                            ('callback', 'obj', (6, 1, 'wl_callback'), True)], destroyed=None))
     msgs.append(dict(conn='C', obj=(1, 0, 'wl_display'), name='sync',
                      args=[('callback', 'obj', (3, 25, 'wl_callback'), True), ('id', 'obj', (3, 26, 'wl_keyboard'), True)], destroyed=(5, 1, 'wl_shm')))
+    # arguments whose interface is UNKNOWN (a nil of an unknown message, `new id [unknown]@8`, an object of no known type; eighth seeding
+    # round: a value matcher with a wildcard compared None with a pattern): always present, not left to the draw
+    msgs.append(dict(conn='A', obj=(4, 0, None), name='poke',
+                     args=[('id', 'null', None), ('surface', 'obj', (7, 0, None), False), ('callback', 'obj', (8, 0, None), True)], destroyed=None))
+    msgs.append(dict(conn=None, obj=(9, None, None), name='frob', args=[(None, 'null', None), (None, 'obj', (6, None, None), True)], destroyed=None))
     return msgs
 
 
